@@ -56,6 +56,10 @@ func (s *scanner) Scan(value bytes.Bytes) (*Number, error) {
 		return nil, err
 	}
 
+	if n.nat.Len() == 0 { // zero has no sign
+		n.neg = false
+	}
+
 	return &n, nil
 }
 
